@@ -123,7 +123,7 @@ func skipCompare(c *mc.Ctx, prop string, input []byte, t int8, sk string, env En
 		}
 	}
 	// a decoder that has just rejected something went back to its pool: the next user must find it as good as new
-	if !o.OK && sk != skBinary && sk != skBinStack && sk != skBufBytes && sk != skBufStream && sk != skTplCustom {
+	if !o.OK && sk != skBinary && sk != skBinStack && sk != skBufBytes && sk != skBufStream && sk != skBufLenient && sk != skTplCustom {
 		c2 := runSkipperOpt(sk, c08Canary, ref.STRUCT, env, false, false)
 		if c2.Panic != nil || c2.AllocCap || !c2.OK || c2.N != len(c08Canary)-1 || (c2.HasBytes && string(c2.Bytes) != string(c08Canary[:len(c08Canary)-1])) {
 			bad("state-leaks-after-rejection", "after this rejected input, a fresh decoder from the pool mishandled a well-formed struct: %s (want extent %d)", describeOut(c2), len(c08Canary)-1)
@@ -315,6 +315,63 @@ func c08Run(c *mc.Ctx) {
 			skipCompare(c, "C08", enc, v.T, sk, full, fmt.Sprintf("mixed-kind chain of depth %d", d), &r)
 		}
 	}
+	// block-wise mixed chains: a run of one container kind inside / outside runs of another (an implementation that walks
+	// runs of one kind iteratively and charges the limit per run instead of per level shows here)
+	wrap := func(kind string, inner ref.Value) ref.Value {
+		switch kind {
+		case "list":
+			return ref.Value{T: ref.LIST, Elem: inner.T, L: []ref.Value{inner}}
+		case "set":
+			return ref.Value{T: ref.SET, Elem: inner.T, L: []ref.Value{inner}}
+		case "struct":
+			return ref.Value{T: ref.STRUCT, F: []ref.Field{{ID: 1, V: inner}}}
+		case "mapval":
+			return ref.Value{T: ref.MAP, Key: ref.BYTE, Elem: inner.T, L: []ref.Value{{T: ref.BYTE, I: 1}, inner}}
+		}
+		return ref.Value{T: ref.MAP, Key: inner.T, Elem: ref.BYTE, L: []ref.Value{inner, {T: ref.BYTE, I: 1}}}
+	}
+	for _, a := range kinds {
+		for _, b := range kinds {
+			if a == b {
+				continue
+			}
+			for _, d := range []int{63, 65, 66, 67, 70} {
+				var layouts [][3]int // levels, innermost first: b x l[0], a x l[1], b x l[2]
+				for _, k := range []int{1, 2, 3, 5, d / 2, d - 2, d - 1} {
+					layouts = append(layouts, [3]int{d - k, k, 0}) // a-run outermost
+				}
+				for _, j := range []int{1, 30} {
+					for _, k := range []int{2, 3} {
+						layouts = append(layouts, [3]int{d - j - k, k, j}) // a-run in the middle
+					}
+				}
+				for _, l := range layouts {
+					if !c.Mine() {
+						continue
+					}
+					v := gen.Small(ref.BYTE, 0)
+					for i := 0; i < l[0]; i++ {
+						v = wrap(b, v)
+					}
+					for i := 0; i < l[1]; i++ {
+						v = wrap(a, v)
+					}
+					for i := 0; i < l[2]; i++ {
+						v = wrap(b, v)
+					}
+					enc := ref.Encode(nil, &v)
+					r := ref.Skip(enc, v.T)
+					if !r.OK || r.MaxDepth != d {
+						panic("block chain generator/reference disagreement")
+					}
+					c.Distinct("blockchain", a, b, d, l)
+					for _, sk := range allSkippers {
+						skipCompare(c, "C08", enc, v.T, sk, full, fmt.Sprintf("chain of depth %d: %d x %s inside %d x %s inside %d x %s", d, l[0], b, l[1], a, l[2], b), &r)
+					}
+				}
+			}
+		}
+	}
 	// very deep values: must be rejected by the limit, not by exhausting the stack
 	for _, d := range []int{100, 1000, 5000} {
 		if !c.Mine() {
@@ -329,7 +386,7 @@ func c08Run(c *mc.Ctx) {
 			}
 		}
 	}
-	c.Done("nesting chains of depth 1..70 for list/set/map-key/map-value/struct x BYTE and STRING leaves, mixed-kind chains 60..90, depth 100/1000/5000")
+	c.Done("nesting chains of depth 1..70 for list/set/map-key/map-value/struct x BYTE and STRING leaves, mixed-kind chains 60..90 (rotating kinds) and block-wise mixed chains (a run of one kind inside/outside/between runs of another, all ordered pairs of kinds, depths 63..70), depth 100/1000/5000")
 }
 
 func init() {
